@@ -2860,6 +2860,9 @@ def metadata_syntax_table(repo, run, rule):
         ("a: !force{{'k': {'n': [1, 2]} }} 5\nb: 2\n", "a: !force:<{'k': {'n': [1, 2]}}> 5\nb: 2\n"),
         ("a: !del{{'x': 1}} {p: 1}\nb: !weak{{'y': 'z'}} 7\nc: 3\n", "a: !del:<{'x': 1}> {p: 1}\nb: !weak:<{'y': 'z'}> 7\nc: 3\n"),
         ("x: !call:f{{'delete': False}} {a: 1}\n", "x: !call:f:<{'delete': False}> {a: 1}\n"),
+        # three and four blocks whose replacements differ in length from what they replace (by different amounts): the accumulated shift matters
+        ("a: !del{{'x': 1}} {p: 1}\nb: !weak{{'a_much_longer_key': 'z'}} 7\nc: !force{{'q': [1, 2, 3]}} 3\nd: 4\n", "a: !del:<{'x': 1}> {p: 1}\nb: !weak:<{'a_much_longer_key': 'z'}> 7\nc: !force:<{'q': [1, 2, 3]}> 3\nd: 4\n"),
+        ("k: [!new{{'i': 0}} 1, !new{{'i': 11}} 2, !new{{'i': 222}} 3, !new{{'i': 3333}} 4]\n", "k: [!new:<{'i': 0}> 1, !new:<{'i': 11}> 2, !new:<{'i': 222}> 3, !new:<{'i': 3333}> 4]\n"),
         ("a: !metadata{{'k': 1 5\n", 'ValueError'),
     ]
     bad = []
